@@ -177,6 +177,15 @@ def run(ctx):
         seen_keys = set()
         for b, t, via, sb, stt in findings:
             what = "record read by %s is written by %s in a different wallet-lock section" % (pp.short(stt.get("f") or "?").split("::")[-1], pp.short(t.get("f") or "?").split("::")[-1])
+            # under which fresh node information does the write happen?  (distinguishes "written back when the
+            # node confirmed something about it" from "written back regardless")
+            conds = set()
+            for cb, ct in f.calls():
+                if (ct.get("f") or "").startswith(c.LW + "types::NodeClient::") and cb != b:
+                    g_ = cfg.call_guard(f, cb)
+                    if g_.ok and cfg.must_pass(f, g_.ok, {b})[0]:
+                        conds.add((ct.get("f") or "").split("::")[-1])
+            what += " [only after %s answered]" % "+".join(sorted(conds)) if conds else " [not conditional on a node reply]"
             if what in seen_keys:
                 continue
             seen_keys.add(what)
